@@ -116,16 +116,17 @@ fn clock(s: &str, what: &str) -> Clock {
             Err(_) => Clock::Unspec(format!("{} wider than u32", what)),
         };
     }
-    if s.chars().any(|c| c.is_ascii() && !c.is_ascii_digit() && c != '+') {
-        return Clock::Invalid(format!("{} has a non-digit ASCII character", what));
-    }
-    Clock::Unspec(format!("{} with non-ASCII or signed digits", what))
+    // anything but ASCII digits is an illegal character of the field (a sign, a letter, a digit of
+    // another script)
+    Clock::Invalid(format!("{} has a character that is not an ASCII digit", what))
 }
 
 pub fn classify(s: &str) -> FenClass {
     use FenClass::*;
+    // the grammar separates fields by one blank; any other white space or a control character is an
+    // illegal character wherever it stands
     if s.chars().any(|c| c != ' ' && c.is_whitespace()) || s.chars().any(|c| c.is_control()) {
-        return Unspecified("white space other than single spaces / control characters".into());
+        return Invalid("white space other than the blank, or a control character".into());
     }
     let fields: Vec<&str> = s.split(' ').collect();
     if fields.iter().any(|f| f.is_empty()) {
